@@ -1016,7 +1016,16 @@ class Plan:
         op = rng.choice(ops)
         if not syms:
             # symbol-free Matrix store: the numeric rule applies
-            op = rng.choice(["m_phase", "m_bad", "m_sym", "bind_noop"])
+            op = rng.choice(["m_phase", "m_bad", "m_shrink", "m_shrink", "m_sym", "bind_noop"])
+            if op == "m_shrink":
+                # an entry made SMALLER (or zero) breaks the unit sum just as a larger one does
+                cand = [i for i in range(n) if abs(_c(ent[i])) > 0.15]
+                if cand:
+                    i = rng.choice(cand)
+                    m = abs(_c(ent[i]))
+                    nm = rng.choice([0.0, max(0.0, m - rng.uniform(0.1, 0.6)), m * 0.5])
+                    return self.add_set(self.pos(i), _r(nm) * rng.choice([1, -1, 1j]) if nm else 0, op)
+                op = "m_bad"
             if op == "m_phase":
                 i = rng.randrange(n)
                 return self.add_set(self.pos(i), _c(ent[i]) * rand_phase(rng), op)
